@@ -2498,7 +2498,7 @@ impl SignedDurationRound {
             increment,
         );
 
-        let seconds = rounded / t::NANOS_PER_SECOND;
+        let seconds = rounded.div_ceil(t::NANOS_PER_SECOND);
         let seconds =
             t::NoUnits::try_rfrom("seconds", seconds).map_err(|_| {
                 err!(
@@ -2508,7 +2508,7 @@ impl SignedDurationRound {
                     singular = self.smallest.singular(),
                 )
             })?;
-        let subsec_nanos = rounded % t::NANOS_PER_SECOND;
+        let subsec_nanos = rounded.rem_ceil(t::NANOS_PER_SECOND);
         // OK because % 1_000_000_000 above guarantees that the result fits
         // in a i32.
         let subsec_nanos = i32::try_from(subsec_nanos).unwrap();
